@@ -255,7 +255,9 @@ pub async fn run_case(ctx: &Ctx, st: &mut State, ci: usize, c: &Value) -> Value 
     let pre: Vec<Value> = c["pre"].as_array().cloned().unwrap_or_default();
     // genuine message at this phase: conformance + accepted without incident
     let key = (entry.to_string(), tpl.to_string(), format!("{phase}|{}", c["pre"]));
-    if !st.baseline_done.contains(&key) {
+    // histories that already contain an input need no baseline of their own: the plain phase has one
+    let has_feed = pre.iter().any(|o| o["op"] == "feed");
+    if !has_feed && !st.baseline_done.contains(&key) {
         st.baseline_done.insert(key);
         let b = match one_run(ctx, entry, &pre, ci, tpl, None, 0).await {
             Ok(Some(v)) => {
